@@ -51,6 +51,40 @@ pub fn run(cx: &mut Ctx) {
             one_value(cx, &ty, &v);
         }
     }
+    // types with large list bounds and array sizes: print-parse only (no value, no layout is built)
+    if cx.shard == 0 && cx.only_case.is_none() {
+        let elems = [Ty::U(8), Ty::Bool, Ty::unit(), Ty::opt(Ty::U(16))];
+        for k in 1..=62u32 {
+            for (j, e) in elems.iter().enumerate() {
+                let bound = 1usize << k;
+                let sizes = [bound, bound - 1, bound + 1, bound / 3 + 7];
+                let tys = [
+                    Ty::list(e.clone(), bound),
+                    Ty::arr(e.clone(), sizes[j]),
+                    Ty::Tuple(vec![Ty::list(e.clone(), bound), Ty::arr(Ty::U(1), sizes[(j + 1) % 4])]),
+                ];
+                for ty in tys {
+                    cx.report.evaluations += 1;
+                    let sty = to_sim_ty(&ty);
+                    let printed = match guard(|| sty.to_string()) {
+                        Ok(s) => s,
+                        Err(p) => {
+                            cx.report.violation(json!({"kind": "panic", "what": format!("printing the type {} panicked: {}", render_ty(&ty), p.message), "signature": format!("bigtype:{}", render_ty(&ty))}));
+                            continue;
+                        }
+                    };
+                    let back = call(|| ResolvedType::parse_from_str(&printed));
+                    let ok = printed == render_ty(&ty) && matches!(&back, Outcome::Ok(t2) if *t2 == sty);
+                    if !ok {
+                        cx.report.violation(json!({"kind": "type-roundtrip", "what": format!("type {} prints as `{printed}`, which parses back as {}", render_ty(&ty), back.map(|t| t.to_string()).brief_val()),
+                            "signature": format!("bigtype:{}", render_ty(&ty))}));
+                    } else {
+                        cx.report.count("large_types_round_tripped", 1);
+                    }
+                }
+            }
+        }
+    }
     // small domains exhaustively (shard 0 only: they ignore the seed)
     if cx.shard == 0 && cx.only_case.is_none() {
         let small = [
@@ -227,6 +261,34 @@ fn one_map(cx: &mut Ctx, rng: &mut Rng, i: u64) {
             o => {
                 bad(cx, format!("printed {module} module does not parse back to an equal map ({}):\n{t1}", o.brief()));
                 return;
+            }
+        }
+        // the same module written by hand in another layout (white space, line breaks and comments
+        // around every token) denotes the same map
+        {
+            let mut lrng = cx.rng(&[i, 79, module.len() as u64]);
+            let gaps = ["", " ", "  ", "\n", "\t", " /* c */ ", " // c\n", "\r\n"];
+            let mut gap = |must: bool| -> String {
+                let g = *lrng.pick(&gaps);
+                if must && g.is_empty() { " ".to_string() } else { g.to_string() }
+            };
+            let mut text = format!("{}mod{}{module}{}{{{}", gap(false), gap(true), gap(false), gap(false));
+            for (n, t, v) in &entries {
+                text.push_str(&format!("const{}{n}{}:{}{}{}={}{}{};{}", gap(true), gap(false), gap(false), render_ty(t), gap(false), gap(false), render_val_dec(v), gap(false), gap(false)));
+            }
+            text.push('}');
+            text.push_str(&gap(false));
+            let same = if module == "witness" {
+                call(|| WitnessValues::parse_from_str(&text)).map(|m| m == witness_values(&sim))
+            } else {
+                call(|| Arguments::parse_from_str(&text)).map(|m| m == arguments(&sim))
+            };
+            match same {
+                Outcome::Ok(true) => cx.report.count("hand_written_modules_parsed", 1),
+                o => {
+                    bad(cx, format!("a {module} module written in another layout does not denote the same map ({}):\n{text}", o.brief()));
+                    return;
+                }
             }
         }
         // duplicate assignment is rejected
